@@ -126,3 +126,10 @@ func VerifWithTURNClientFactory(f func(*turn.ClientConfig) (VerifTURNClient, err
 		return nil
 	}
 }
+
+// VerifPendingTransactions reports how many Binding transactions the agent holds as outstanding.
+func VerifPendingTransactions(a *Agent) (n int, err error) {
+	err = a.loop.Run(a.loop, func(context.Context) { n = len(a.pendingBindingRequests) })
+
+	return n, err
+}
